@@ -18,14 +18,22 @@ g++ -std=c++17 -O1 -I/repo/src $out/demo.cpp -o /tmp/demo_orig_$id 2>>$log; time
 echo "demo exit with change: $with, without: $without" >> $log
 rm -f /tmp/demo_mut_$id /tmp/demo_orig_$id
 echo "== checks with the change applied to /repo" >> $log
-git -C /repo apply $out/patch.diff || { echo "PATCH DOES NOT APPLY" >> $log; cat $log; exit 1; }
+# SEED_VIA_WORKTREE=1: /repo is in use (a vp run reads it) - point the checks at the worktree,
+# which carries the same change, instead of applying the patch to /repo
+if [ -n "$SEED_VIA_WORKTREE" ]; then
+  git -C /repo apply --check $out/patch.diff || { echo "PATCH DOES NOT APPLY" >> $log; cat $log; exit 1; }
+  export CNTGS_REPO=$wt; echo "(checks pointed at $wt through CNTGS_REPO)" >> $log
+else
+  git -C /repo apply $out/patch.diff || { echo "PATCH DOES NOT APPLY" >> $log; cat $log; exit 1; }
+fi
 caught=""
 for p in "$@"; do
   r=$(cd /verif && python3 tools/check.py --property $p --skip-proof 2>&1 | grep -E "^VIOLATION|^$p quick" | head -3)
   echo "$p: $r" >> $log
   echo "$r" | grep -q "^VIOLATION" && caught="$caught $p"
 done
-git -C /repo checkout -- .
+[ -n "$SEED_VIA_WORKTREE" ] || git -C /repo checkout -- .
+unset CNTGS_REPO
 echo "caught by:$caught" >> $log
 python3 - "$id" "$suite" "$with" "$without" "$caught" "$@" <<'PY'
 import json,sys
